@@ -11,33 +11,41 @@ VARIABLES owner,   \* [Objs -> Conns \cup {"pool", "fresh"}]
           ref,     \* [Conns -> Objs \cup {"none"}]   limitReader.r
           msg,     \* [Conns -> {"none", "open", "eof", "closed"}]
           used,    \* set of <<conn, obj, ownerAtUse>> : every call into a pooled object
+          stale,   \* objects that still hold plaintext of the connection that used them last (window content)
+          leaked,  \* a connection was handed an object that still held another connection's plaintext
           steps
-vars == <<owner, holds, ref, msg, used, steps>>
+vars == <<owner, holds, ref, msg, used, stale, leaked, steps>>
 Init == /\ owner = [o \in Objs |-> "fresh"] /\ holds = [c \in Conns |-> "none"] /\ ref = [c \in Conns |-> "none"]
-        /\ msg = [c \in Conns |-> "none"] /\ used = {} /\ steps = 0
+        /\ msg = [c \in Conns |-> "none"] /\ used = {} /\ stale = {} /\ leaked = FALSE /\ steps = 0
 Tick == steps < MaxSteps /\ steps' = steps + 1
 (* a compressed message starts: take any pooled object, or a fresh one if the pool is empty *)
 Start(c) == /\ Tick /\ msg[c] \in {"none", "eof"}
             /\ \E o \in Objs :
                  /\ owner[o] = "pool" \/ (owner[o] = "fresh" /\ \A p \in Objs : owner[p] # "pool")
                  /\ owner' = [owner EXCEPT ![o] = c] /\ holds' = [holds EXCEPT ![c] = o] /\ ref' = [ref EXCEPT ![c] = o]
-            /\ msg' = [msg EXCEPT ![c] = "open"] /\ UNCHANGED used
+                 /\ leaked' = (leaked \/ o \in stale)
+            /\ msg' = [msg EXCEPT ![c] = "open"] /\ UNCHANGED <<used, stale>>
 ReadPart(c) == /\ Tick /\ msg[c] = "open" /\ used' = used \cup {<<c, ref[c], owner[ref[c]]>>}
-               /\ UNCHANGED <<owner, holds, ref, msg>>
+               /\ stale' = stale \cup {ref[c]}        \* the object now holds c's plaintext
+               /\ UNCHANGED <<owner, holds, ref, msg, leaked>>
 ReadToEnd(c) == /\ Tick /\ msg[c] = "open" /\ used' = used \cup {<<c, ref[c], owner[ref[c]]>>}
                 /\ owner' = [owner EXCEPT ![holds[c]] = "pool"] /\ holds' = [holds EXCEPT ![c] = "none"]
-                /\ msg' = [msg EXCEPT ![c] = "eof"] /\ UNCHANGED ref
+                /\ stale' = IF "PutWithoutClear" \in Dev THEN stale \cup {holds[c]} ELSE stale \ {holds[c]}   \* returned objects are cleared
+                /\ msg' = [msg EXCEPT ![c] = "eof"] /\ UNCHANGED <<ref, leaked>>
 (* reading again after the end: the fixed code answers EOF without touching ref *)
 ReadAgain(c) == /\ Tick /\ msg[c] = "eof"
                 /\ IF "ReadAgainUsesRef" \in Dev THEN used' = used \cup {<<c, ref[c], owner[ref[c]]>>} ELSE UNCHANGED used
-                /\ UNCHANGED <<owner, holds, ref, msg>>
+                /\ UNCHANGED <<owner, holds, ref, msg, stale, leaked>>
 (* the connection closes at any moment, also in the middle of a message *)
 Close(c) == /\ Tick /\ msg[c] # "closed"
             /\ owner' = IF holds[c] # "none" THEN [owner EXCEPT ![holds[c]] = "pool"] ELSE owner
-            /\ holds' = [holds EXCEPT ![c] = "none"] /\ msg' = [msg EXCEPT ![c] = "closed"] /\ UNCHANGED <<ref, used>>
+            /\ stale' = IF holds[c] # "none" /\ "PutWithoutClear" \notin Dev THEN stale \ {holds[c]} ELSE stale
+            /\ holds' = [holds EXCEPT ![c] = "none"] /\ msg' = [msg EXCEPT ![c] = "closed"] /\ UNCHANGED <<ref, used, leaked>>
 Next == \E c \in Conns : Start(c) \/ ReadPart(c) \/ ReadToEnd(c) \/ ReadAgain(c) \/ Close(c)
 Spec == Init /\ [][Next]_vars
 UseImpliesOwner == \A u \in used : u[3] = u[1]
 NoSharedOwner == \A c \in Conns : holds[c] # "none" => owner[holds[c]] = c
+(* a connection never starts on an object that still holds another connection's plaintext *)
+FreshObjectsClean == ~leaked
 AtMostOneHolder == \A c, d \in Conns : (c # d /\ holds[c] # "none") => holds[c] # holds[d]
 =============================================================================
